@@ -11,6 +11,9 @@ def facts : Facts :=
     declTokens := ["const", "func", "import", "type", "var"],
     wrapDefault := true,
     mainAppended := true,
+    mainOwnOnly := true,
+    methodReplaces := true,
+    depsPendingOnly := true,
     iotaResetAtEnd := true }
 
 /-- the calls each entry point makes to the other functions of the pipeline, in source order -/
@@ -31,8 +34,11 @@ def pipeline : CallGraph :=
     resizeFrame copies the old frame and zeroes only the new cells; gta assigns a new function symbol
     unconditionally and cfg points the symbol at the new node; every variable declaration allocates
     a new index at the end of the layout; the incremental parser prefixes declarations, wraps
-    everything else in main and returns the body block; CompileAST appends main to the init list; the scope's iota is reset after
-    the last spec of a const declaration and incremented after any other, in cfg and in gta -/
+    everything else in main and returns the body block; CompileAST appends main to the init list when the
+    node of main is below the root of the program being compiled (repair of F11-8, 2b45c53); addMethod
+    replaces a method of the same name (repair of F11-7, 3b1b93d); genGlobalVarDecl makes a variable wait
+    only for the variables of its own call, the pending set (repair of F11-1, a9bfd4c); the scope's iota is
+    reset after the last spec of a const declaration and incremented after any other, in cfg and in gta -/
 def shapes : List (String × String) :=
   [("resizeFrame.copy", "copy(data,interp.frame.data)"),
    ("resizeFrame.guard", "l-b<=0"),
@@ -50,8 +56,17 @@ def shapes : List (String × String) :=
    ("parse.wrap", "inFunc=true;src=wrapInMain(src)"),
    ("parse.body", "{returnf.Decls[0].(*ast.FuncDecl).Body,nil}"),
    ("wrapInMain", "returnfmt.Sprintf(\"packagemain;funcmain(){%s\\n}\",src)"),
-   ("CompileAST.main", "ifm:=gs.sym[mainID];pkgName==mainID&&m!=nil{initNodes=append(initNodes,m.node)}")]
-/-- fingerprints (extract/common FuncHash) of the functions Model/Piecewise.lean was written from -/
+   ("CompileAST.main", "ifm:=gs.sym[mainID];pkgName==mainID&&m!=nil{fora:=m.node;a!=nil;a=a.anc{ifa==root{initNodes=append(initNodes,m.node)break}}}"),
+   ("addMethod.loop", "fori,m:=ranget.method{ifm==n{return}ifm.ident==n.ident{t.method[i]=nreturn}}"),
+   ("addMethod.append", "t.method=append(t.method,n)"),
+   ("genGlobalVarDecl.waits", "ifpending[d]{canInit=false}"),
+   ("genGlobalVarDecl.pending", "pending:=map[*node]bool{};for_,n:=rangenodes{pending[n]=true};delete(pending,n)")]
+/-- fingerprints (extract/common FuncHash) of the functions Model/Piecewise.lean was written from.
+    Reviewed after the repairs of round 3: CompileAST (2b45c53: the ancestor test, modelled by `mainOwnOnly`),
+    getVarDependencies (004b9fa: identifiers resolved by the symbol set at CFG — the model's compiled cells;
+    17bcf0b: function and method bodies are followed — `reachF`; ab398ff: a variable may depend on itself —
+    `varDepsOk`), gtaRetry (e843e3f: defineXStmt revisited like defineStmt; multi-value declarations are not
+    in the item language), addMethod (new: 3b1b93d) -/
 def sourceHashes : List (String × String) :=
   [("Interpreter.parse", "136d4adfaacc6b12"),
    ("wrapInMain", "ad11654064a2b3f2"),
@@ -62,7 +77,7 @@ def sourceHashes : List (String × String) :=
    ("Interpreter.EvalPath", "3bba971d12579724")] ++
   [("Interpreter.Compile", "0af2ee423e207830"),
    ("Interpreter.compileSrc", "9427d3d379f61f48"),
-   ("Interpreter.CompileAST", "cea597b5fd1e79aa"),
+   ("Interpreter.CompileAST", "0472806e9941054a"),
    ("Interpreter.Execute", "19fb5462ea693d28")] ++
   [("scope.add", "441317678d25bfc3"),
    ("scope.lookup", "cc08c4552fe1b40f"),
@@ -70,6 +85,7 @@ def sourceHashes : List (String × String) :=
    ("Interpreter.Globals", "f94935e512b7f300")] ++
   [("genGlobalVars", "28ae47950487a25c"),
    ("getVars", "ba362aea20fadd90"),
-   ("getVarDependencies", "45e633ad779f638c")] ++
-  [("Interpreter.gtaRetry", "8e0a7b00b0f865a8")]
+   ("getVarDependencies", "2b12af0fae20c90e")] ++
+  [("Interpreter.gtaRetry", "737ad8e893ad854e")] ++
+  [("itype.addMethod", "5b51c3365b179e9f")]
 end YaegiVerif.Expected.C11
